@@ -33,29 +33,40 @@ RULE = ("a case is one history over {construct(i, dash/gen/nest, add_config_path
         "subgroups field with two alternatives, a field with a custom type=) x 6 spelling configurations; the same "
         "dataclass object may be registered on several parsers; argv per parser: valid in its own spelling, "
         "valid in the other spelling, bad value, unknown option, -h, config files (present / missing). Exhaustive slice: "
-        "every history over a 29-letter alphabet on three fixed parsers length 2 + 1/2 of length 3 + 1/160 of length 4 (quick) / up to length 3 + 1/4 of length 4 + 1/150 of length 5 (thorough); random "
+        "every history over a 25-letter alphabet on three fixed parsers up to length 3 + 1/150 of length 4 (quick) / up to length 3 + 1/3 of length 4 + 1/150 of length 5 (thorough); random "
         "histories up to length 30. Non-trivial = >= 2 parse calls on one parser, or >= 2 parsers alive at a parse; "
         "distinct by canonical JSON.")
-ASSUMPTIONS = ["a fresh `/venv/bin/python -I` process that imports the library, builds one parser and parses once is the "
+ASSUMPTIONS = ["the caller does not mutate the objects a parse returned: successive results of one parser may alias the same "
+               "default container (FieldWrapper._default caches the default_factory result, field_wrapper.py:760-762), so "
+               "`r = p.parse_args([]); r.l.items.append(99)` changes the next answer; the property speaks of what happened "
+               "'in the process' through the library's API (parse / print_help / constructors), not of mutation of results",
+               "a fresh `/venv/bin/python -I` process that imports the library, builds one parser and parses once is the "
                "reference answer", "float()/repr of CPython (table supplied to the model)",
                "threads are out of scope: histories are API-call-level interleavings"]
 TRUSTED = ["stdlib argparse (optional-argument fragment modelled in Model/Engine.lean)",
            "harness/fresh_parse.py (reference answers come from it)"]
 EXHAUSTIVE = {"quick": False, "thorough": False}
 MANIFEST = {
-    "text": ("Proof (partial): Lean state machine of a pool of parsers (process-global spelling settings written by every "
-             "constructor, per-parser latch / frozen action table / pushed file defaults / "
-             "config-path registration / frozen subgroup choices). Theorem c08_partial: for EVERY history, every parse call "
-             "made on a parser that was only used through calls outside the named exclusions (D10 file defaults pushed "
-             "earlier / files given after set-up, D9 other subgroup choice than the frozen "
-             "one, late add_arguments; plus two stated proof gaps: config-path parser set up by print_help before its "
-             "first parse, constructor config_path= parsers beyond their first call) returns exactly the answer of a "
-             "fresh parser; each open finding has a witness history refuting the full statement; the repaired D5/D6/D8 "
-             "histories are regression examples. Every parse of every generated history is "
-             "compared with the model and with a fresh interpreter."),
-    "note": ("Trusted: Lean kernel + standard axioms; harness; fresh-process reference. Modelled not verified: "
-             "parsing.py:127-170,281-363,381-383,385-438,523-554,599-773, field_wrapper.py:97-103,591-595, "
-             "field_parsing.py:223-247 on flat dataclasses with at most one flat subgroups field, no clashing options."),
+    "text": ("Proof (partial): Lean state machine of a pool of parsers (FieldWrapper class attributes written by every "
+             "constructor AND by _preprocessing, threaded through the set-up as write-then-read; per-parser latch / frozen "
+             "action table / pushed file defaults / argparse parser-level defaults / config-path registration / frozen "
+             "subgroup choices). Theorem c08_partial: for EVERY history, every parse call that is `safe` on a parser that "
+             "only received state-keeping calls returns exactly the answer of a fresh parser, whatever the class attributes "
+             "are at that moment (needs the D5 repair: hypothesis env.reassert, refuted without it by d5_old_witness). "
+             "Exclusions = open findings D9 (other subgroup choice than the frozen one, incl. rejected choices), D10 (file "
+             "defaults pushed earlier / files given after set-up), root-less file after set-up, late add_arguments; a wrong "
+             "answer (D9, late add) does not taint the parser. Each finding has a witness history; the repaired D5/D6/D8 and "
+             "print_help+config_path= histories are regression examples. Parsers with constructor config_path= files are covered beyond their first call under "
+             "the decidable state check ctorReloadSafe (re-applying the files changes nothing; idempotence of the load "
+             "itself is not proved). SAMPLED only (no theorem): the implied add_config_path_arg form of config_path= "
+             "(outside the model), --config_path parsers set up by print_help / after a parse stopped in the subgroup choice, "
+             "parsers with option conflicts (oracle-only stream), the reset of the parse_tuple closures between calls "
+             "(alignment after accepted command lines is C04.c04_counters_aligned; the reset is observed on the real "
+             "closures after every call), the trajectory of the class attributes (observable g). Every parse of every "
+             "generated history is compared with the model and with a fresh interpreter."),
+    "note": ("Trusted: Lean kernel + standard axioms; harness; fresh-process reference. Modelled not verified (/repo at "
+             "c681aea): parsing.py:127-176,287-369,396-406,408-461,546-583,629-803, field_wrapper.py:97-103,599-604, "
+             "field_parsing.py:208-258 on flat dataclasses with at most one flat subgroups field, no clashing options."),
     "technique": "Lean 4 step invariant lifted to all histories + differential check against fresh interpreters",
     "design_ref": "DESIGN.md section 5, C08",
 }
@@ -116,7 +127,9 @@ FILES = [
     [D + "/f3.json", [["t", [["n_items", _i(8)]]], ["a", [["a_b", _i(11)]]]]],
     [D + "/nope.json", None],
     [D + "/r0.json", {"rootless": [["a_b", _i(13)], ["name", _s("rr")]]}],
+    [D + "/rs.json", {"rootless": [["k_v", _i(5)]]}],
 ]
+ROOTLESS_FOR = {"A": "/r0.json", "S": "/rs.json"}
 
 
 def spelled(cfg, dest, name, prefix_dest=None):
@@ -216,7 +229,9 @@ def construct(op: dict, d: str):
         kw["add_config_path_arg"] = True
     if op.get("cfg_files"):
         kw["config_path"] = [f.replace(D, d) for f in op["cfg_files"]]
-        if not op.get("cfg_path"):
+        if op.get("cfg_path"):
+            kw.pop("add_config_path_arg")  # the commonest form: config_path= alone IMPLIES add_config_path_arg (parsing.py:172-175)
+        else:
             kw["add_config_path_arg"] = False
     return sp.make_parser(op["cfg"], **kw)
 
@@ -543,27 +558,26 @@ def hist(ops, note=None):
 
 
 def alphabet():
-    """29 letters over three slots (a letter may be a short macro: constructor + its add_arguments)"""
+    """25 letters over three slots (a letter may be a short macro: constructor + its add_arguments)"""
     c0, c1, c2 = CFGS[1], CFGS[3], CFGS[0]
-    s0, s1, s2 = segments(c0, "A", "a"), segments(c1, "T", "t"), segments(c2, "S", "s")
+    s0, s2 = segments(c0, "A", "a"), segments(c2, "S", "s")
     k = segments(c2, "K", "k")
     f = segments(c1, "F", "f")
     return [
-        # slot 1 over F: heterogeneous tuples with a bool item (rejected mid-tuple / at the last item, then valid)
-        ("mk1f", [mk(1, c1), add(1, "F")]), ("p1fok", [parse(1, f["ok1"])]), ("p1fok2", [parse(1, f["ok2"])]),
-        ("p1fbadlast", [parse(1, f["bad_last"])]), ("p1fbadmid", [parse(1, f["bad_mid"])]), ("p1ftwice", [parse(1, f["twice"])]),
-        ("mk0", [mk(0, c0), add(0, "A")]), ("mk1", [mk(1, c1), add(1, "T")]), ("mk2", [mk(2, c2), add(2, "S")]),
-        # slot 1 as a parser with constructor config file in the root-less layout (WITHOUT_ROOT, one dataclass)
-        ("mk1c", [mk(1, CFGS[5], cfg_files=[D + "/r0.json"]), add(1, "A")]),
-        # slots 0 and 2 over the SAME dataclass K whose field carries a custom type=
-        ("mk0k", [mk(0, c2), add(0, "K")]), ("mk2k", [mk(2, c2), add(2, "K")]),
+        # slot 0: A under DASH; K (custom type=) shared with slot 2
+        ("mk0", [mk(0, c0), add(0, "A")]), ("mk0k", [mk(0, c2), add(0, "K")]),
         ("p0ok", [parse(0, s0["ok1"])]), ("p0foreign", [parse(0, s0["foreign"])]), ("p0h", [parse(0, ["-h"])]),
-        ("p0k", [parse(0, k["ok1"])]),
-        ("p1ok", [parse(1, s1["ok1"])]), ("p1empty", [parse(1, [])]), ("p1bad", [parse(1, s1["bad"])]),
+        ("p0k", [parse(0, k["ok1"])]), ("h0", [{"op": "print_help", "i": 0}]), ("add0", [add(0, "B")]),
+        # slot 1: F under NESTED (heterogeneous tuples with a bool item: rejected mid-tuple / at the last item, then
+        # valid); or A with a constructor config file in the root-less layout (WITHOUT_ROOT, one dataclass)
+        ("mk1f", [mk(1, c1), add(1, "F")]), ("mk1c", [mk(1, CFGS[5], cfg_files=[D + "/r0.json"]), add(1, "A")]),
+        ("p1fok", [parse(1, f["ok1"])]), ("p1fbadlast", [parse(1, f["bad_last"])]), ("p1fbadmid", [parse(1, f["bad_mid"])]),
+        ("p1ftwice", [parse(1, f["twice"])]), ("p1empty", [parse(1, [])]), ("h1", [{"op": "print_help", "i": 1}]),
+        # slot 2: S (subgroups) — plain, or WITHOUT_ROOT with a root-less constructor file; or K
+        ("mk2", [mk(2, c2), add(2, "S")]), ("mk2c", [mk(2, CFGS[5], cfg_files=[D + "/rs.json"]), add(2, "S")]),
+        ("mk2k", [mk(2, c2), add(2, "K")]),
         ("p2y", [parse(2, s2["ok1"])]), ("p2x", [parse(2, s2["ok2"])]), ("p2empty", [parse(2, [], known=True)]),
-        ("p2bad", [parse(2, s2["bad"])]), ("p2k", [parse(2, k["ok1"])]),
-        ("h0", [{"op": "print_help", "i": 0}]), ("h1", [{"op": "print_help", "i": 1}]), ("h2", [{"op": "print_help", "i": 2}]),
-        ("f0", [{"op": "format_help", "i": 0}]), ("add0", [add(0, "B")]),
+        ("p2bad", [parse(2, s2["bad"])]), ("p2k", [parse(2, k["ok1"])]), ("h2", [{"op": "print_help", "i": 2}]),
     ]
 
 
@@ -604,11 +618,19 @@ def make_definition(rng):
     r = rng.random()
     cp = r < 0.25
     cf = []
-    if 0.25 <= r < 0.40:
-        # constructor config_path= (add_config_path_arg=False): one dataclass A, file in the layout its nested mode expects
-        names = ["A"] + [nm for nm in names if nm not in ("A", "S")][: rng.choice([0, 0, 1])]
+    if 0.25 <= r < 0.45:
+        # constructor config_path=: dataclass A (or S: its child wrapper changes len(_wrappers) after the set-up), file in
+        # the layout its nested mode expects; one in four in the commonest form (add_config_path_arg implied True)
+        first = rng.choice(["A", "A", "S"])
+        names = [first] + [nm for nm in names if nm not in ("A", "S")][: rng.choice([0, 0, 1])]
         rootless = cfg["nest"] == "WITHOUT_ROOT" and len(names) == 1
-        cf = [D + "/r0.json"] if rootless else [D + rng.choice(["/f0.json", "/f1.json"])]
+        if rootless:
+            cf = [D + ROOTLESS_FOR[first]]
+        elif first == "A":
+            cf = [D + rng.choice(["/f0.json", "/f1.json"])]
+        else:
+            cf = []
+        cp = bool(cf) and rng.random() < 0.25
     free = [nm for nm in ["A", "B", "T", "L"] if nm not in names]
     d = {"cfg": cfg, "cp": cp, "cf": cf, "names": names, "late": rng.choice(free) if free and rng.random() < 0.7 else None}
 
@@ -624,7 +646,7 @@ def make_definition(rng):
             if cp and rng.random() < 0.6:
                 rootless = cfg["nest"] == "WITHOUT_ROOT" and len(ns) == 1
                 if rootless:
-                    fs = [D + "/r0.json", D + "/nope.json"] if ns == ["A"] else [D + "/nope.json"]
+                    fs = [D + ROOTLESS_FOR[ns[0]], D + "/nope.json"] if ns[0] in ROOTLESS_FOR else [D + "/nope.json"]
                 else:
                     fs = [f[0] for f in FILES if f[1] is None or (not isinstance(f[1], dict) and all(DEST_INV[dk[0]] in ns for dk in f[1]))]
                 if fs:
@@ -637,6 +659,20 @@ def make_definition(rng):
     return d
 
 
+def conflict_definitions():
+    """ORACLE-ONLY stream (the model answers `unmodelled`: option conflicts are outside its fragment): the same class at
+    two destinations, so that AUTO conflict resolution renames the options during the one-time set-up"""
+    U = CFGS[0]
+    return [
+        {"cfg": U, "cp": False, "cf": [], "regs": [("A", "a1"), ("A", "a2")], "late": None,
+         "menu": [[], ["-h"], ["--a1.a_b", "3"], ["--a2.name", "q", "--a1.a_b", "4"], ["--a_b", "3"], ["--a1.a_b", "notint"]]},
+        {"cfg": U, "cp": False, "cf": [], "regs": [("S", "s1"), ("S", "s2")], "late": None,
+         "menu": [[], ["--s1.mod", "z"], ["--s1.mod", "y", "--s2.mod", "x"], ["--s1.mod", "y"], ["--s2.k_v", "3"]]},
+        {"cfg": CFGS[1], "cp": False, "cf": [], "regs": [("A", "a1"), ("A", "a2")], "late": None,
+         "menu": [[], ["--a1.a-b", "3"], ["--a2.a-b", "5", "--a1.name", "w"], ["--a1.a_b", "3"]]},
+    ]
+
+
 def random_history(rng, maxlen, defs):
     n_parsers = rng.choice([1, 2, 2, 3, 3])
     ops, alive = [], {}
@@ -645,8 +681,8 @@ def random_history(rng, maxlen, defs):
     def new_parser(i):
         d = rng.choice(defs)
         ops.append(mk(i, d["cfg"], d["cp"], d["cf"]))
-        for nm in d["names"]:
-            ops.append(add(i, nm))
+        for nm, dest in d.get("regs") or [(nm, None) for nm in d["names"]]:
+            ops.append(add(i, nm, dest))
         alive[i] = {"d": d, "late": False}
 
     for i in range(n_parsers):
@@ -660,7 +696,7 @@ def random_history(rng, maxlen, defs):
         i = rng.choice(sorted(alive))
         p = alive[i]
         if r < 0.74:
-            ops.append(parse(i, rng.choice(p["d"]["menu_late"] if p["late"] else p["d"]["menu"]), known=rng.random() < 0.12))
+            ops.append(parse(i, rng.choice(p["d"].get("menu_late", p["d"]["menu"]) if p["late"] else p["d"]["menu"]), known=rng.random() < 0.12))
         elif r < 0.86:
             ops.append({"op": "print_help", "i": i})
         elif r < 0.92:
@@ -675,9 +711,9 @@ DEST_INV = {v: k for k, v in DEST.items()}
 
 
 def gen_list(rng, tier):
-    # quick: every word of length 2, every 2nd of length 3, every 160th of length 4; thorough: up to length 3 + every 4th of length 4 + every
+    # quick: every word up to length 3, every 150th of length 4; thorough: up to length 3 + every 4th of length 4 + every
     # 150th of length 5 (which ones depends on the seed)
-    strides = {3: 2, 4: 160} if tier == "quick" else {4: 4, 5: 150}
+    strides = {4: 150} if tier == "quick" else {4: 3, 5: 150}
     offs = {n: rng.randrange(st) for n, st in sorted(strides.items())}
     seen = {n: 0 for n in strides}
     cases = []
@@ -689,7 +725,8 @@ def gen_list(rng, tier):
                 continue
         cases.append(word_case(word))
     defs = [make_definition(rng) for _ in range(12 if tier == "quick" else 70)]
-    n_rand = 120 if tier == "quick" else 2000
+    defs += conflict_definitions() * (1 if tier == "quick" else 2)
+    n_rand = 100 if tier == "quick" else 2000
     for k in range(n_rand):
         cases.append(random_history(rng, 12 if k % 3 else 30, defs))
     return cases
@@ -708,7 +745,7 @@ def gen(rng, tier):
                 keys.add(fresh_key(spec_at(ops, k), op.get("known", False), op["argv"], c["case"].get("files")))
     keys = sorted(keys)
     rng.shuffle(keys)
-    for key in keys[: 100 if tier == "quick" else 1000]:
+    for key in keys[: 80 if tier == "quick" else 1000]:
         spec, known, argv, files = json.loads(key)
         yield {"op": "hist.fresh", "case": {"spec": spec, "known": known, "argv": argv, "files": files}}
 
@@ -745,6 +782,34 @@ def same(a, b):
     return canon(a) == canon(b)
 
 
+def diff_parts(g, f):
+    """the components in which two outcomes of one call differ (each is attributed — or not — on its own):
+    outcome (one of them is not a returned namespace), other (stray namespace attributes), sub (subgroup choice /
+    instance), leaves (plain field values: set of (dest, field)), shape (anything else)"""
+    if g["o"] != "ok" or f["o"] != "ok":
+        return {"outcome": True}
+    parts = {}
+    if sorted(g.get("other") or []) != sorted(f.get("other") or []):
+        parts["other"] = True
+    gi, fi = {i["dest"]: i for i in g["insts"]}, {i["dest"]: i for i in f["insts"]}
+    if sorted(gi) != sorted(fi) or g["extras"] != f["extras"] or g["cfg"] != f["cfg"]:
+        parts["shape"] = True
+    if g["subgroups"] != f["subgroups"]:
+        parts["sub"] = True
+    leaves = set()
+    for d in set(gi) & set(fi):
+        a, b = gi[d], fi[d]
+        if a["cls"] != b["cls"] or [n for n, _ in a["fields"]] != [n for n, _ in b["fields"]]:
+            parts["shape"] = True
+            continue
+        if a.get("sub") != b.get("sub"):
+            parts["sub"] = True
+        leaves |= {(d, n) for (n, v), (_, w) in zip(a["fields"], b["fields"]) if v != w}
+    if leaves:
+        parts["leaves"] = sorted(leaves)
+    return parts
+
+
 def oracle(case, obs):
     fails = []
     if case["op"] == "hist.fresh":
@@ -754,19 +819,24 @@ def oracle(case, obs):
         if op["op"] != "parse" or obs["fresh"][k] is None:
             continue
         if not same(obs["outs"][k], obs["fresh"][k]):
-            probe = {"clause": "history-independence", "k": k}
-            known = [fid for fid, pred in FINDINGS.items() if pred(case, obs, probe)]
-            # the clause names the signature it matches, so that shrinking a NEW failure cannot drift into a known one
-            fails.append({"clause": "history-independence" + (":like:" + known[0] if known else ""), "k": k,
-                          "detail": f"call #{k} parse(parser {op['i']}, {op['argv']}) returned {canon(obs['outs'][k])[:400]} "
-                                    f"but a fresh identically configured parser returns {canon(obs['fresh'][k])[:400]}"})
+            parts = diff_parts(obs["outs"][k], obs["fresh"][k])
+            # one failure per differing component, and per differing leaf: each must be explained on its own
+            units = [(part, None) for part in sorted(parts) if part != "leaves"] + [("leaves", leaf) for leaf in parts.get("leaves", [])]
+            for part, leaf in units or [("shape", None)]:
+                probe = {"clause": "history-independence", "k": k, "part": part, "leaf": leaf}
+                known = [fid for fid, pred in FINDINGS.items() if pred(case, obs, probe)]
+                # the clause names the signature it matches, so that shrinking a NEW failure cannot drift into a known one
+                what = part if leaf is None else f"leaf {leaf[0]}.{leaf[1]}"
+                fails.append({"clause": "history-independence" + (":like:" + known[0] if known else ""), "k": k, "part": part, "leaf": leaf,
+                              "detail": f"call #{k} parse(parser {op['i']}, {op['argv']}) [{what}] returned {canon(obs['outs'][k])[:400]} "
+                                        f"but a fresh identically configured parser returns {canon(obs['fresh'][k])[:400]}"})
     return fails
 
 
 def _proj_out(o):
     if o["o"] == "ok":
         return {"o": "ok", "insts": sorted(o["insts"], key=lambda i: i["dest"]), "subgroups": sorted(o["subgroups"]),
-                "cfg": o["cfg"], "extras": o["extras"]}
+                "cfg": o["cfg"], "extras": o["extras"], "other": sorted(o.get("other") or [])}
     if o["o"] == "exit":
         return {"o": "exit", "code": o["code"]}
     if o["o"] == "raise":
@@ -841,13 +911,47 @@ def tags(case, obs):
     if case["op"] == "hist.fresh":
         return ["op:hist.fresh", "fresh:" + obs["fresh1"]["o"]]
     ops = case["case"]["ops"]
-    t = [f"len:{min(len(ops), 30) // 5 * 5}+", "src:" + ("exh" if str(case["case"].get("note", "")).startswith("exh") else "other")]
+    note = str(case["case"].get("note", ""))
+    t = [f"len:{min(len(ops), 30) // 5 * 5}+", "src:" + (f"exh{note.count('+') + 1}" if note.startswith("exh") else "other")]
+    alive, start, helped, failed, ctor_between, setup = {}, {}, {}, {}, {}, {}
     for k, op in enumerate(ops):
+        i = op["i"]
         t.append("op:" + op["op"])
+        tr = obs["trace"][k]
+        if op["op"] == "construct":
+            c = op["cfg"]
+            kind = "ctor-file+implied-arg" if op.get("cfg_files") and op.get("cfg_path") else "ctor-file" if op.get("cfg_files") \
+                else "config-path-arg" if op.get("cfg_path") else "plain"
+            t += [f"cfg:{c['dash']}/{c['gen']}/{c['nest']}", "parser:" + kind]
+            for j in alive:
+                if not setup.get(j):
+                    ctor_between[j] = ctor_between.get(j, False) or alive[j] != c
+            alive[i], start[i], helped[i], failed[i], ctor_between[i], setup[i] = c, k, False, False, False, False
+        elif op["op"] == "add":
+            t.append("class:" + op["cls"]["name"])
+        elif op["op"] == "print_help":
+            helped[i] = True
         if op["op"] == "parse" and obs["fresh"][k] is not None:
             agree = same(obs["outs"][k], obs["fresh"][k])
-            b = obs["trace"][k]["before"] or {}
+            b = tr["before"] or {}
             t.append(f"parse:{'agree' if agree else 'DIFFER'}:{'re' if b.get('pre') else 'first'}:{obs['outs'][k]['o']}")
+            t.append(f"alive:{len(alive)}")
+            t.append("api:" + ("parse_known_args" if op.get("known") else "parse_args"))
+            if not b.get("pre") and ctor_between.get(i):
+                t.append("shape:other-ctor-before-first-setup")
+            if helped.get(i):
+                t.append("shape:after-print_help")
+            if failed.get(i):
+                t.append("shape:after-failed-parse")
+            spec = spec_at(ops, k)
+            if spec["cfg_path"] and not spec["cfg_files"] and bool(b.get("pre")) != bool(b.get("cfg_reg")):
+                t.append("gap:cfgsetup")  # the theorem's stated proof gap: covered by sampling only
+            if spec["cfg_files"] and b.get("pre") is not None and (b.get("pre") or any(ops[j]["op"] == "parse" and ops[j]["i"] == i for j in range(start[i], k))):
+                t.append("gap:ctor-file-implied-arg" if spec["cfg_path"] else "thm:ctor-file-reparse(if ctorReloadSafe)")
+            if obs["outs"][k]["o"] != "ok":
+                failed[i] = True
+        if tr["after"].get("pre"):
+            setup[i] = True
     return t
 
 
@@ -864,65 +968,161 @@ def _ctx(case, obs, fail):
     i = op["i"]
     start = max(j for j in range(k) if ops[j]["i"] == i and ops[j]["op"] == "construct")
     mine = [j for j in range(start, k) if ops[j]["i"] == i]
-    return {"ops": ops, "k": k, "op": op, "spec": spec_at(ops, k), "start": start, "mine": mine,
+    return {"ops": ops, "k": k, "op": op, "spec": spec_at(ops, k), "start": start, "mine": mine, "part": fail.get("part"),
+            "leaf": tuple(fail["leaf"]) if fail.get("leaf") else None,
+            "parts": diff_parts(obs["outs"][k], obs["fresh"][k]),
             "before": obs["trace"][k]["before"] or {}, "got": obs["outs"][k], "fresh": obs["fresh"][k], "trace": obs["trace"]}
+
+
+def _norm(tok):
+    return tok.split("=", 1)[0].lstrip("-").replace("-", "_")
+
+
+def _mentions(argv, names):
+    """some option token of argv ends with one of the (underscore-normalised) field names"""
+    return any(a.startswith("-") and any(_norm(a) == n or _norm(a).endswith("." + n) for n in names) for a in argv)
+
+
+def _subs_of(spec):
+    return {r["dest"] + "." + r["cls"]["sub"]["name"]: r["cls"]["sub"] for r in spec["regs"] if r["cls"].get("sub")}
 
 
 def sig_d9(case, obs, fail):
     x = _ctx(case, obs, fail)
-    if not x or not x["before"].get("pre"):
+    if not x or not x["before"].get("pre") or x["part"] not in ("sub", "outcome", "shape"):
         return False
-    subs = {r["dest"] + "." + r["cls"]["sub"]["name"]: r["cls"]["sub"] for r in x["spec"]["regs"] if r["cls"].get("sub")}
+    subs = _subs_of(x["spec"])
     if not subs:
         return False
     frozen = x["before"].get("frozen_sub", {})
+    g, f = x["got"], x["fresh"]
+    if x["part"] == "shape":
+        # parse_known_args: the options of the alternative that is not the frozen one are handed back as leftovers
+        if not x["parts"].get("sub") or g["cfg"] != f["cfg"] or [(i["dest"], i["cls"]) for i in g["insts"]] != [(i["dest"], i["cls"]) for i in f["insts"]]:
+            return False
+        alt_fields = {fl["name"] for s_ in subs.values() for a in s_["alts"] for fl in a["fields"]}
+        odd = [tok for tok in g["extras"] if tok not in f["extras"]] + [tok for tok in f["extras"] if tok not in g["extras"]]
+        return bool(odd) and _mentions(odd, alt_fields)
     want = {}
-    if x["fresh"]["o"] == "ok":
-        want = {i["dest"] + "." + i["sub"]["name"]: i["sub"]["cls"] for i in x["fresh"]["insts"] if i.get("sub")}
-    elif x["got"]["o"] == "ok":
-        for dest, v in x["got"]["subgroups"]:
+    if f["o"] == "ok":
+        want = {i["dest"] + "." + i["sub"]["name"]: i["sub"]["cls"] for i in f["insts"] if i.get("sub")}
+    elif g["o"] == "ok":
+        for dest, v in g["subgroups"]:
             alt = next((a for a in subs.get(dest, {"alts": []})["alts"] if a["key"] == v.get("v")), None)
             if alt:
                 want[dest] = alt["cls"]
     else:
-        # both failed differently: the only asymmetry is which alternative's options exist
-        return any(frozen.get(d) for d in subs)
+        # both calls failed, differently (e.g. `--k_v notint --mod z`: the frozen parser stops at the bad int, a fresh one
+        # at the choice): only when this argv addresses the subgroup flag or a field of one of its alternatives
+        names = {s_["name"] for s_ in subs.values()} | {fl["name"] for s_ in subs.values() for a in s_["alts"] for fl in a["fields"]}
+        return any(frozen.get(d) for d in subs) and _mentions(x["op"]["argv"], names)
     return any(frozen.get(d) is not None and want.get(d) is not None and frozen[d] != want[d] for d in subs)
+
+
+def _file_fields(x):
+    """(dest, field) pairs the config files named on the command lines of this parser (since its construction, this
+    call included) can push; None if no file was named"""
+    names = set()
+    for j in x["mine"] + [x["k"]]:
+        if x["ops"][j]["op"] == "parse":
+            for a in x["ops"][j]["argv"]:
+                names |= {t for t in (a, a.split("=", 1)[-1]) if t.endswith(".json")}
+    if not names:
+        return None
+    out = set()
+    single = x["spec"]["regs"][0]["dest"] if len(x["spec"]["regs"]) >= 1 else None
+    for name, content in case_files(x):
+        if name in names and content is not None:
+            if isinstance(content, dict):
+                out |= {(single, k) for k, _ in content["rootless"]}
+            else:
+                out |= {(dest, k) for dest, kvs in content for k, _ in kvs}
+    return out
+
+
+def case_files(x):
+    return x.get("files") or FILES
 
 
 def sig_d10(case, obs, fail):
     x = _ctx(case, obs, fail)
-    if not x or not x["spec"]["cfg_path"]:
-        return False  # (constructor config_path= files are re-applied by every call, print_help included: nothing known)
-    if not (x["before"].get("pre") or x["before"].get("cfg_reg")):
-        earlier_files = any(x["ops"][j]["op"] == "parse" and any(a.endswith(".json") for a in x["ops"][j]["argv"]) for j in x["mine"])
-        if not earlier_files:
-            return False
+    if not x or not x["spec"]["cfg_path"] or x["part"] not in ("leaves", "outcome"):
+        return False  # (constructor files alone are re-applied by every call, print_help included: nothing known there)
+    fields = _file_fields(x)
+    if not fields:
+        return False  # no config file was ever named on a command line of this parser
     g, f = x["got"], x["fresh"]
-    req = {"o": "exit", "code": 2, "kind": "required"}
-    if (g == req) != (f == req) and "raise" not in (g["o"], f["o"]):
-        return True  # a pushed default makes a required field optional (or the ignored file leaves it required)
-    if g["o"] != "ok" or f["o"] != "ok":
+    if x["part"] == "outcome":
+        req = {"o": "exit", "code": 2, "kind": "required"}
+        if (g == req) != (f == req) and "raise" not in (g["o"], f["o"]):
+            # a pushed default makes a required field optional (or the ignored file leaves it required)
+            required = {(r["dest"], fl["name"]) for r in x["spec"]["regs"] for fl in r["cls"]["fields"] if fl["default"]["kind"] == "missing"}
+            return bool(required & fields)
         return False
-    # only default-valued leaves / the reported config path may differ
-    return ([i["dest"] for i in g["insts"]] == [i["dest"] for i in f["insts"]] and g["subgroups"] == f["subgroups"]
-            and g["extras"] == f["extras"])
+    # only a leaf that a named file can push
+    return x["leaf"] in fields
 
 
 def sig_late_add(case, obs, fail):
     x = _ctx(case, obs, fail)
-    if not x:
+    if not x or x["part"] not in ("leaves", "outcome", "shape"):
         return False
-    for j in x["mine"]:
-        if x["ops"][j]["op"] == "add" and (x["trace"][j]["before"] or {}).get("pre"):
+    late = [x["ops"][j] for j in x["mine"] if x["ops"][j]["op"] == "add" and (x["trace"][j]["before"] or {}).get("pre")]
+    if not late:
+        return False
+    late_dests = {op["dest"] for op in late}
+    late_fields = {fl["name"] for op in late for fl in op["cls"]["fields"]}
+    late_required = any(fl["default"]["kind"] == "missing" for op in late for fl in op["cls"]["fields"])
+    if x["part"] == "leaves":
+        if x["leaf"] is None:
+            return False
+        if x["leaf"][0] in late_dests:
             return True
-    return False
+        # the late registration changed len(_wrappers): a root-less file that was applied while the parser had ONE
+        # dataclass is not root-less for a fresh parser that has two from the start (its keys never reach the fields)
+        if x["spec"]["cfg"]["nest"] == "WITHOUT_ROOT" and x["spec"]["regs"]:
+            keys = _rootless_keys(x)
+            return x["leaf"] in {(x["spec"]["regs"][0]["dest"], k) for k in keys}
+        return False
+    if x["part"] == "shape":
+        # parse_known_args: the late class's options (and their values) are handed back as leftovers
+        g, f = x["got"], x["fresh"]
+        same_rest = g["cfg"] == f["cfg"] and [(i["dest"], i["cls"]) for i in g["insts"]] == [(i["dest"], i["cls"]) for i in f["insts"]]
+        surplus = [tok for tok in g["extras"] if tok not in f["extras"]]
+        return same_rest and bool(surplus) and _mentions(surplus, late_fields) and all(tok in g["extras"] for tok in f["extras"])
+    # one side rejected the command line: it must be about the late class (its options are unknown to the old parser /
+    # its required field is only demanded by a fresh one)
+    return _mentions(x["op"]["argv"], late_fields) or late_required
+
+
+def _rootless_keys(x):
+    names = set(x["spec"]["cfg_files"])
+    for j in x["mine"] + [x["k"]]:
+        if x["ops"][j]["op"] == "parse":
+            names |= {a for a in x["ops"][j]["argv"] if a.endswith(".json")}
+    return {k for name, content in FILES if name in names and isinstance(content, dict) for k, _ in content["rootless"]}
+
+
+def sig_rootless(case, obs, fail):
+    """C08-rootless-after-setup: WITHOUT_ROOT parser, one registration whose class has a subgroups field, a root-less
+    config file: after the set-up the file's keys show up as top-level attributes of the namespace"""
+    x = _ctx(case, obs, fail)
+    if not x or x["part"] != "other":
+        return False
+    if x["spec"]["cfg"]["nest"] != "WITHOUT_ROOT" or len(x["spec"]["regs"]) != 1 or not x["before"].get("pre"):
+        return False
+    if not x["spec"]["regs"][0]["cls"].get("sub"):
+        return False
+    keys = _rootless_keys(x)
+    g, f = x["got"], x["fresh"]
+    return bool(g.get("other")) and not f.get("other") and {k for k, _ in g["other"]} <= keys
 
 
 FINDINGS = {
     "C08-D9-subgroup-choice-frozen": sig_d9,
     "C08-D10-file-defaults-persist": sig_d10,
     "C08-late-add-ignored": sig_late_add,
+    "C08-rootless-after-setup": sig_rootless,
 }
 
 
